@@ -62,8 +62,10 @@ Definition s_newmap (ss : sstate) (x : var) (kv : list (key * val)) : sstate :=
 
 Definition in_range (xs : list val) (i : Z) : bool := ((0 <=? i) && (i <? Z.of_nat (length xs)))%Z.
 
+(* indices are mscript ints; outside 0 <= i < len there is no element: failure *)
 Definition seq_get (xs : list val) (i : Z) : res val :=
-  if in_range xs i then Ok (nth (Z.to_nat i) xs VNil) else Fail Err.
+  if negb (in_i32 i) then Fail Stuck
+  else if in_range xs i then Ok (nth (Z.to_nat i) xs VNil) else Fail Err.
 
 Definition seq_set (xs : list val) (i : Z) (x : val) : list val :=
   firstn (Z.to_nat i) xs ++ x :: skipn (S (Z.to_nat i)) xs.
@@ -266,5 +268,10 @@ Definition defined (f : option fail) : Prop :=
 (* stopped with a failure (exit 1 or a Rust panic, exit 101: both stop the program) / ran to the end *)
 Definition stops (f : option fail) : bool := match f with Some _ => true | None => false end.
 
+(* same observations (bags up to permutation), and the run ends the same way *)
 Definition refines (impl spec : list obs * option fail) : Prop :=
-  Forall2 obs_eq (fst impl) (fst spec) /\ stops (snd impl) = stops (snd spec) /\ defined (snd impl).
+  Forall2 obs_eq (fst impl) (fst spec) /\ snd impl = snd spec.
+
+(* weaker reading used for the pre-fix behaviour: a Rust panic also stops the program *)
+Definition refines_stops (impl spec : list obs * option fail) : Prop :=
+  Forall2 obs_eq (fst impl) (fst spec) /\ stops (snd impl) = stops (snd spec).
